@@ -75,10 +75,81 @@ def closure_table(f, init_id):
     return out, set()
 
 
+def direct_loop_form(f, init_id, tab, tlen):
+    """(range, inserts, tables, blocks of the derivation insert) when the initialiser derives the map in a loop of its own"""
+    b = f.bodies.get(init_id)
+    if b is None or len(b.loop_heads()) != 1:
+        return None, [], set(), set()
+    loop = b.natural_loop(next(iter(b.loop_heads())))
+    eb = ExprBuilder(b)
+    tname = tab.split("::")[-1]
+    ins, blocks, rng = [], set(), None
+    for bi, t in b.calls():
+        if bi not in loop or not (t["callee"].get("resolved") or "").endswith("HashMap::<K, V, S, A>::insert"):
+            continue
+        k, v = eb.operand(t["args"][1]), eb.operand(t["args"][2])
+        ks, vs = show(k), show(v)
+        blocks.add(bi)
+        # the loop's iterator
+        src = None
+        for cb, ct in b.calls():
+            if (ct["callee"].get("resolved") or "").endswith("IntoIterator>::into_iter") and cb not in loop:
+                src = eb.operand(ct["args"][0])
+        stxt = show(src) if src is not None else ""
+        if src is not None and src[0] == "agg" and "Range" in str(src[1]) and "Inclusive" not in str(src[1]) and all(x[0] == "const" for x in src[2]):
+            item = "(next(&iter) as Some).0"
+            if ks == "%s[%s]" % (tname, item) and item in vs and vs.count("next(") == 1:
+                rng = (src[2][0][1], src[2][1][1])
+                ins.append(("T[i]", "i", k, v))
+                continue
+        if stxt == "enumerate(iter((&%s as &[char])))" % tname:
+            if ks == "*(next(&iter) as Some).0.1" and "(next(&iter) as Some).0.0" in vs and vs.count("next(") == 1:
+                rng = (0, tlen)
+                ins.append(("T[i]", "i", k, v))
+                continue
+        ins.append((ks, vs, k, v))
+    return rng, ins, ({tab} if rng is not None else set()), blocks
+
+
 def ret_exprs(b, eb):
     out = []
     for bi, k in b.defs.get(0, []):
         e = eb.call_expr(b.blocks[bi]["term"]) if k == "term" else eb.rvalue(b.blocks[bi]["stmts"][k]["rv"])
+        out.append(e)
+    return out
+
+
+def _subst(e, env, depth=0):
+    if depth > 60 or not isinstance(e, (tuple, list)):
+        return e
+    if isinstance(e, tuple) and e and e[0] == "var" and e[1] in env:
+        return env[e[1]]
+    if isinstance(e, tuple):
+        out = tuple(_subst(x, env, depth + 1) if isinstance(x, (tuple, list)) else x for x in e)
+        # `*&x` / `&*x` introduced by passing a reference
+        if out[0] == "deref" and out[1][0] == "ref":
+            return out[1][1]
+        return out
+    return [_subst(x, env, depth + 1) if isinstance(x, (tuple, list)) else x for x in e]
+
+
+def ret_exprs_inlined(f, b, eb):
+    """the returned expressions, with a call of a small crate-local helper that makes up a whole return value replaced by the
+    helper's own return values over the actual arguments (a converter that delegates to `translate(table, ch)`)"""
+    out = []
+    for e in ret_exprs(b, eb):
+        hb = f.bodies.get(e[1]) if e[0] == "call" and isinstance(e[1], str) else None
+        if hb is not None and hb.kind in ("fn", "method") and not hb.back_edges and hb.nblocks <= 40 and hb.argc == len(e[2]):
+            heb = ExprBuilder(hb)
+            env = {i + 1: a for i, a in enumerate(e[2])}
+            for he in ret_exprs(hb, heb):
+                vs = set()
+                _vars(he, vs)
+                if any(l > hb.argc for l in vs):
+                    out.append(e)       # the helper computes through locals of its own: keep the call as it is
+                    break
+                out.append(_subst(he, env))
+            continue
         out.append(e)
     return out
 
@@ -139,6 +210,12 @@ def run(chk):
         init = "<%s as std::ops::Deref>::deref::__static_ref_initialize" % rev
         rng = init_range(f, init)
         ins, tabs = closure_table(f, init)
+        loop_ins = set()
+        if not ins:
+            # the derivation written as a plain loop in the initialiser: `for a in lo..hi { insert(T[a], a) }` or
+            # `for (a, c) in T.iter().enumerate() { insert(*c, a) }`
+            rng2, ins, tabs, loop_ins = direct_loop_form(f, init, tab, len(T))
+            rng = rng2 if rng2 is not None else rng
         ok = rng is not None and len(ins) == 1 and any(t == tab for t in tabs)
         chk.obligation(ok)
         if not ok:
@@ -146,7 +223,7 @@ def run(chk):
                         what="reverse map initialiser not recognised as `(a..b).for_each(|a| res.insert(%s[a], a))`: range=%s inserts=%s tables=%s" % (tab.split("::")[-1], rng, [(i[0], i[1]) for i in ins], sorted(tabs)))
             continue
         kshow, vshow = ins[0][0], ins[0][1]
-        ok = "[" in kshow and ("a" in vshow or "_2" in vshow) and tab.split("::")[-1] in kshow
+        ok = ("[" in kshow and ("a" in vshow or "_2" in vshow) and tab.split("::")[-1] in kshow) or (bool(loop_ins) and kshow == "T[i]" and vshow == "i")
         chk.obligation(ok)
         if not ok:
             chk.finding("%s|reverse-map-insert" % rev, rule="R-CONV-SHAPE", where="src/parsers/%s" % name, fn=rev,
@@ -158,7 +235,7 @@ def run(chk):
         # inserts made by the initialiser itself, outside the derivation closure (aliases appended afterwards): a later insert
         # for a key the derivation produced replaces the derived code
         ib = f.bodies.get(init)
-        extra = [t for bi, t in ib.calls() if (t["callee"].get("resolved") or "").endswith("HashMap::<K, V, S, A>::insert")] if ib is not None else []
+        extra = [t for bi, t in ib.calls() if (t["callee"].get("resolved") or "").endswith("HashMap::<K, V, S, A>::insert") and bi not in loop_ins] if ib is not None else []
         if extra:
             pairs = []
             for bi, k, s2 in ib.stmts():
@@ -183,7 +260,7 @@ def run(chk):
                 shape_ok = False
                 continue
             eb = ExprBuilder(mb)
-            rexp = ret_exprs(mb, eb)
+            rexp = ret_exprs_inlined(f, mb, eb)
             rets = [show(e) for e in rexp]
             derived = only_from_params(mb, rexp)
             joined = " | ".join(rets)
@@ -259,7 +336,7 @@ def run(chk):
             if not chk.anchor(mb is not None, "R-CONV-SHAPE", "anchor missing: petscii converter"):
                 continue
             eb = ExprBuilder(mb)
-            rexp = ret_exprs(mb, eb)
+            rexp = ret_exprs_inlined(f, mb, eb)
             rets = [show(e) for e in rexp]
             derived = only_from_params(mb, rexp)
             ok = any("get(" in r and want in r for r in rets) and any(r in ("ch", "ch.ch") for r in rets) and len(rets) == 2 and not derived
